@@ -14,7 +14,13 @@ import (
 	"github.com/wrgl/wrgl/pkg/encoding"
 )
 
+// MaxStringLen is the longest string (in bytes) whose length fits the 16-bit length prefix
+const MaxStringLen = 65535
+
 func WriteString(w io.Writer, buf encoding.Bufferer, s string) (n int64, err error) {
+	if len(s) > MaxStringLen {
+		return 0, fmt.Errorf("string is too long (%d > %d bytes)", len(s), MaxStringLen)
+	}
 	b := buf.Buffer(2)
 	l := uint16(len(s))
 	binary.BigEndian.PutUint16(b, l)
